@@ -201,10 +201,21 @@ func runHammer(t []string) string {
 	close(barrier)
 	fin := make(chan struct{})
 	go func() { wg.Wait(); close(fin) }()
-	select {
-	case <-fin:
-	case <-time.After(90 * time.Second):
-		return fmt.Sprintf("done=0 n=%d", atomic.LoadInt64(&nreq))
+	// a deadlock is what makes no progress: no request answered for 60 s (the whole run may take long - thousands of rounds with
+	// CDR transfer on the race build)
+	lastN, lastMove := int64(-1), time.Now()
+wait:
+	for {
+		select {
+		case <-fin:
+			break wait
+		case <-time.After(2 * time.Second):
+			if n := atomic.LoadInt64(&nreq); n != lastN {
+				lastN, lastMove = n, time.Now()
+			} else if time.Since(lastMove) > 60*time.Second {
+				return fmt.Sprintf("done=0 n=%d", n)
+			}
+		}
 	}
 	left := 0
 	if ue, ok := chf_context.GetSelf().ChfUeFindBySupi(supi); ok {
